@@ -1,6 +1,6 @@
 import importlib
 
-MODULES = ['traversal', 'equality', 'payload', 'locks', 'registry_cxx', 'safety', 'py_ops']
+MODULES = ['traversal', 'equality', 'payload', 'locks', 'registry_cxx', 'safety', 'py_ops', 'py_registry']
 
 
 def load_all():
